@@ -760,19 +760,23 @@ def run_op_case(op, a, b, negpow, rec, res, terms, metas, corpus=False):
             st, out = core.guarded(disabled)
         outcomes.append((fname, st, out))
         res.oracle_evals += 1
+    tab_term, entries = inv_table(rec.take())
+    # the recorded defect, characterised by its mechanism: np.linalg.inv was asked for the inverse of an exactly singular
+    # matrix (the base) and answered with a matrix instead of raising
+    inv_answered_singular = any(sing and bflat is not None for _, _, bflat, sing in entries)
+    for fname, st, out in outcomes:
         verdict = judge(expect, st, out, rtol)
         if verdict:
             code, text = verdict
             singular_region = (op == 'Pow' and code == 'returned-where-undefined' and is_square(a) and b[0] == 'num'
                                and negpow and b[1] != 'c' and complex(b[2]).real < 0
-                               and float(complex(b[2]).real).is_integer() and mat_inverse(to_ref(a)) is None)
+                               and float(complex(b[2]).real).is_integer() and inv_answered_singular)
             res.witnesses.append({
                 'key': 'op:%s:%s:%s:%s' % (op, negpow, jsonable(a), jsonable(b)),
                 'kind': 'op', 'code': FINDING_CODE if singular_region else code, 'op': op, 'form': fname, 'negpow': negpow,
                 'a': jsonable(a), 'b': jsonable(b),
                 'what': '%s %s %s (%s%s): %s' % (short(a), SYM[op], short(b), fname,
                                                   '' if negpow else ', negative powers disabled', text)})
-    tab_term, entries = inv_table(rec.take())
     obs = []
     zero_div = op == 'Div' and b[0] == 'num' and b[2] == 0
     for fname, st, out in outcomes:
@@ -800,7 +804,7 @@ def spread(terms, metas, ctx):
 def op_level(ctx, res, rng, rec):
     terms, metas = [], []
     kinds = ['i', 'f', 'c']
-    rounds = 1 if ctx['tier'] == 'quick' else 4
+    rounds = 1 if ctx['tier'] == 'quick' else 3
     if ctx['escalate'] and ctx['tier'] == 'quick':
         rounds = 2
     hist = {}
@@ -842,8 +846,10 @@ def op_level(ctx, res, rng, rec):
                 for singular in (False, True):
                     negative = kb != 'c' and z < 0
                     reps = 1 if not negative else (2 if ctx['tier'] == 'quick' else 6)
-                    if negative and ctx['tier'] == 'quick' and n == 4 and (z <= -3 or (ka == 'c' and z <= -2)):
-                        continue        # exact arithmetic on 4x4 float inverses cubed costs seconds per case in Coq
+                    if negative and n == 4 and (z <= -3 or (ka == 'c' and z <= -2)):
+                        if ctx['tier'] == 'quick':
+                            continue    # exact arithmetic on 4x4 float inverses cubed costs seconds per case in Coq
+                        reps = 1
                     if negative and ctx['tier'] == 'quick' and n == 4:
                         reps = 1
                     for _ in range(reps):
@@ -863,7 +869,7 @@ def op_level(ctx, res, rng, rec):
     res.distribution['square_matrix_power_cases'] = npow
     res.samples.append({'operator_case': metas[len(metas) // 2]})
     terms, metas = spread(terms, metas, ctx)
-    n, failing, errors = core.eval_agreement('c14_op', HEADER, 'op_case', terms, shard=len(terms) // 16 + 1,
+    n, failing, errors = core.eval_agreement('c14_op', HEADER, 'op_case', terms, shard=len(terms) // (16 if ctx['tier'] == 'quick' else 48) + 1,
                                              case_type='bool * binop * val * val * inv_tab * list obs')
     res.programs += n
     res.corr_errors += errors
@@ -966,10 +972,10 @@ def ref_eval(t, env, negpow, notes):
         return ref_eval(t[1], env, negpow, notes)
     if k == 'arr':
         kids = [ref_eval(x, env, negpow, notes) for x in t[1]]
+        if ANY in kids:
+            return ANY                            # e.g. a division by zero below may raise anything first
         if ERR in kids:
             return ERR
-        if ANY in kids:
-            return ANY
         vals = [v[1] for v in kids]
         shapes = set(rshape(v) for v in vals)
         if len(shapes) != 1:
@@ -984,20 +990,20 @@ def ref_eval(t, env, negpow, notes):
         items = t[1]
         res = ref_eval(items[-1], env, negpow, notes)
         i = len(items) - 2
+        kids = [ref_eval(x, env, negpow, notes) for x in items if x != '-']
+        if ANY in kids:
+            return ANY                            # children are all evaluated before the node
+        if ERR in kids:
+            return ERR
         while i >= 0:
             if res in (ERR, ANY):
-                # children are all evaluated before the node: an error below is an error of the whole
-                rest = [ref_eval(x, env, negpow, notes) for x in items[:i + 1] if x != '-']
-                return ERR if (res == ERR or ERR in rest) else ANY
+                return res
             if items[i] == '-':
                 res = ('val', rmap(lambda x: -x, res[1]))
             else:
                 base = ref_eval(items[i], env, negpow, notes)
-                if base in (ERR, ANY):
-                    rest = [ref_eval(x, env, negpow, notes) for x in items[:i] if x != '-']
-                    return ERR if (base == ERR or ERR in rest) else ANY
                 if not isinstance(base[1], list) and not isinstance(res[1], list):
-                    res = ANY
+                    res = ANY                     # number ** number
                 else:
                     res = ref_binop('Pow', base[1], res[1], negpow, None)
             i -= 1
@@ -1005,11 +1011,13 @@ def ref_eval(t, env, negpow, notes):
     first = ref_eval(t[1], env, negpow, notes)
     kids = [(o, ref_eval(e, env, negpow, notes)) for o, e in t[2]]
     allk = [first] + [v for _, v in kids]
-    if ERR in allk:
-        return ERR
     if ANY in allk:
         return ANY
+    if ERR in allk:
+        return ERR
     if k == 'prod':
+        if any(o == '/' and not isinstance(v[1], list) and v[1].iszero() for o, v in kids):
+            return ANY                            # a zero divisor may raise anything (outside the property)
         operands = [first[1]] + [v[1] for _, v in kids]
         if all((not isinstance(x, list)) or is_vec(x) for x in operands):
             nvec = (1 if is_vec(first[1]) else 0) + sum(1 for o, v in kids if o == '*' and is_vec(v[1]))
@@ -1235,7 +1243,7 @@ def formula_level(ctx, res, rng, rec):
                 n_neg += 1
     # 3. product chains of numbers, vectors and a few matrices (the triple-vector rule)
     n_chain = 0
-    for _ in range(500 if not thorough else 4000):
+    for _ in range(500 if not thorough else 3000):
         g = FormulaGen(rng)
         length = rng.randint(2, 6)
         n = rng.choice([2, 3])
@@ -1257,7 +1265,7 @@ def formula_level(ctx, res, rng, rec):
         n_chain += 1
     # 4. random trees
     n_tree = 0
-    for _ in range(900 if not thorough else 8000):
+    for _ in range(900 if not thorough else 5000):
         g = FormulaGen(rng)
         tree = g.sum(2)
         if tree[0] in ('num', 'var'):
@@ -1287,7 +1295,7 @@ def formula_level(ctx, res, rng, rec):
     res.samples.append({'formula_case': metas[len(metas) // 3]})
     res.samples.append({'formula_case': metas[-7]})
     terms, metas = spread(terms, metas, ctx)
-    n, failing, errors = core.eval_agreement('c14_expr', HEADER, 'expr_case', terms, shard=len(terms) // 16 + 1,
+    n, failing, errors = core.eval_agreement('c14_expr', HEADER, 'expr_case', terms, shard=len(terms) // (16 if ctx['tier'] == 'quick' else 48) + 1,
                                              case_type='bool * expr * inv_tab * obs')
     res.programs += n
     res.corr_errors += errors
